@@ -310,3 +310,7 @@ pub fn certificate_files_exists(fm: &FileManager) -> bool {
 	let file_types = vec![FileType::PrivateKey, FileType::Certificate];
 	check_files(fm, &file_types)
 }
+
+#[cfg(feature = "breard_r_acmed_verif")]
+#[path = "/verif/probe/storage_probe.rs"]
+mod verif;
